@@ -17,6 +17,7 @@
 -/
 import AHP.Lemmas.Format
 import AHP.Lemmas.FormatLexMini
+import AHP.Lemmas.FormatLexExact
 namespace AHP.C11
 open AHP AHP.Fmt
 -- the lexer's side (namespace `AHP`) has declarations with the same short names as the formatter model
@@ -109,13 +110,8 @@ theorem verbatim_blocks_exact (cfg : Cfg) (c : Ctx) (p : Str) (s : Str) :
     decorate cfg c p (.text true s) = .text true s := by
   simp [decorate]
 
-/-- What the serialiser adds before the end tag of a (not self-closing) element is its `_indent` or nothing; for
-    script/style this is "the line break and indentation the pretty printers place before the end tag". -/
-theorem end_tag_text (n ind : Str) (kids : List Node) :
-    endTag n false ind kids = ind ++ str "</" ++ n ++ str ">" ∨ endTag n false ind kids = str "</" ++ n ++ str ">" := by
-  rcases endTag_cases n ind kids with h | h
-  · exact Or.inl h
-  · exact Or.inr h.1
+-- (`end_tag_text`, a restatement of `endTag`'s definition, is replaced by `script_style_content_reparses` below: the
+-- statement about the re-parsed output it was meant to support.)
 
 /-! #### string level: the output text lexes back and re-parses to the same document -/
 
@@ -174,6 +170,85 @@ theorem formatter_output_reparses (cfg : Cfg) (hi : IndentWS cfg) (toks : List T
     refine ⟨out, _, _, hout, hlex, doc_reparse cfg hi ps.doctype n st sc kids hs hdt, rfl, ?_⟩
     simp only [St.root, rootOfStack, Option.map_some]
     rw [cskel_outRoot cfg hi n st sc kids hs]
+
+/-- **C11b on the re-parsed output (string level).**  Same hypotheses as `formatter_output_reparses`; the comparison is
+    the finer skeleton `pskel` (`Lemmas/FormatLexExact.lean`) instead of `cskel`: lexing the formatter's output text and
+    building with the plain parser gives a document with the same doctype whose tree has the same elements, nesting,
+    attribute stores and self-closing flags, references and comments verbatim, and
+
+    * **every data block below a pre/code element — at any depth, inside nested elements too — character for character**
+      (adjacent data blocks joined, as re-tokenising joins them);
+    * the content of every script/style element outside pre/code equal up to its trailing run of line-feed / space / tab
+      characters (`stripTail`; exactly what is appended: `script_style_content_reparses`);
+    * all other text equal after removing white space (as in `cskel`). -/
+theorem formatter_output_reparses_exact (cfg : Cfg) (hi : IndentWS cfg) (toks : List Tok)
+    (h : NoWrapperStart toks) (ps : St) (hp : Plain.feed toks = .ok ps)
+    (n : Str) (st : AStore) (sc : Bool) (kids : List FNode)
+    (hroot : ps.root = some (FNode.elem n st sc kids).toNode) (hw : WrapperOK n st sc kids)
+    (hs : (FNode.elem n st sc kids).Strict) (hdt : DtOK ps.doctype) :
+    ∃ out toks' ps', format cfg toks = .ok out ∧ lexStrict out = some toks' ∧
+      Plain.feed (toks'.map Tok.ofToken) = .ok ps' ∧ ps'.doctype = ps.doctype ∧
+      ps'.root.map pskel = ps.root.map pskel := by
+  obtain ⟨out, hout, hlex⟩ := formatter_output_lexes cfg hi toks h ps hp n st sc kids hroot hw hs hdt
+  rw [hroot]
+  unfold docToks at hlex
+  by_cases hn : n = wrapper
+  · obtain ⟨hst, hsc, hmulti⟩ := hw hn
+    subst hn; subst hsc; subst hst
+    simp only [if_true] at hlex
+    have hk' := strictL_of_wrapper {} false kids hs
+    refine ⟨out, _, _, hout, hlex, doc_reparse_multi cfg hi ps.doctype kids hk' hdt hmulti, rfl, ?_⟩
+    simp only [St.root, rootOfStack, Option.map_some]
+    rw [pskel_outM cfg hi ps.doctype {} kids hk']
+  · simp only [hn, if_false] at hlex
+    refine ⟨out, _, _, hout, hlex, doc_reparse cfg hi ps.doctype n st sc kids hs hdt, rfl, ?_⟩
+    simp only [St.root, rootOfStack, Option.map_some]
+    rw [pskel_outRoot cfg hi n st sc kids hs]
+
+/-- **C11b, script/style on the re-parsed output: exactly what is added.**  Same hypotheses.  List the contents
+    (concatenated text) of the script/style elements in document order (`rawConts`), for the plain parser's tree of the
+    input (`r`) and for its tree of the lexed output text (`r'`): the two lists have the same length and, element by
+    element (`TailsRel`), the output's content is the input's content, or the input's content followed by **a line break
+    and spaces/tabs** — "the line break and indentation the pretty printers place before the end tag" (`TailRel`;
+    which of the two, and how many units: C12's layout law).  Replaces `end_tag_text`. -/
+theorem script_style_content_reparses (cfg : Cfg) (hi : IndentWS cfg) (toks : List Tok)
+    (h : NoWrapperStart toks) (ps : St) (hp : Plain.feed toks = .ok ps)
+    (n : Str) (st : AStore) (sc : Bool) (kids : List FNode)
+    (hroot : ps.root = some (FNode.elem n st sc kids).toNode) (hw : WrapperOK n st sc kids)
+    (hs : (FNode.elem n st sc kids).Strict) (hdt : DtOK ps.doctype) :
+    ∃ out toks' ps' r', format cfg toks = .ok out ∧ lexStrict out = some toks' ∧
+      Plain.feed (toks'.map Tok.ofToken) = .ok ps' ∧ ps'.root = some r' ∧
+      TailsRel (rawConts (FNode.elem n st sc kids).toNode) (rawConts r') := by
+  obtain ⟨out, hout, hlex⟩ := formatter_output_lexes cfg hi toks h ps hp n st sc kids hroot hw hs hdt
+  unfold docToks at hlex
+  by_cases hn : n = wrapper
+  · obtain ⟨hst, hsc, hmulti⟩ := hw hn
+    subst hn; subst hsc; subst hst
+    simp only [if_true] at hlex
+    have hk' := strictL_of_wrapper {} false kids hs
+    exact ⟨out, _, _, _, hout, hlex, doc_reparse_multi cfg hi ps.doctype kids hk' hdt hmulti, rfl,
+      rawConts_outM cfg hi ps.doctype {} kids hk'⟩
+  · simp only [hn, if_false] at hlex
+    exact ⟨out, _, _, _, hout, hlex, doc_reparse cfg hi ps.doctype n st sc kids hs hdt, rfl,
+      rawConts_outRoot cfg hi n st sc kids hs⟩
+
+/-- what `pskel` keeps, spelled out on the three kinds of data: below pre/code the block itself; outside, the block
+    without white space; of script/style outside pre/code the concatenated text without its trailing LF/space/tab run -/
+theorem pskel_keeps (s : Str) (k : Kind) (n : Str) (st : AStore) (sc : Bool) (ind : Str) (kids : List Node) :
+    pskelAt true (.text false s) = .text false s
+    ∧ pskelAt false (.text false s) = .text false (eraseWS s)
+    ∧ (isPre n = true → pskelAt false (.elem k n st sc ind kids) = .elem .normal n st sc [] (pskelAtL true kids))
+    ∧ (isRawText n = true →
+        pskelAt false (.elem k n st sc ind kids) = .elem .normal n st sc [] [.text false (stripTail (textCat kids))]) := by
+  refine ⟨rfl, rfl, ?_, ?_⟩
+  · intro hp
+    have hr : isRawText n = false := by
+      cases hr : isRawText n with
+      | false => rfl
+      | true => rw [raw_not_pre n hr] at hp; cases hp
+    simp [pskelAt, hp, hr]
+  · intro hr
+    simp [pskelAt, hr]
 
 /-- **C11 (string level, token form).**  For every strict single-root document tree `u` (any size, any depth),
     every doctype and every formatter class: feed the formatter the token sequence of the document; its output
@@ -300,6 +375,39 @@ example : ∃ out toks2, format (mkCfg .mini .dflt false) (strictToks (some (str
     (by simp only [FNode.Glued, GluedL, FNoAdjL, fisDataTok]; decide)
     (by simp only [FNode.NoWrapper, NoWrapperL]; decide)
 
+/-- `formatter_output_reparses_exact` applies to `sampleToks` (a `pre` with a nested `span` holding `  y  `) … -/
+example : ∃ out toks' ps', format (mkCfg .pretty (.str (str "  ")) false) sampleToks = .ok out ∧
+    lexStrict out = some toks' ∧ Plain.feed (toks'.map Tok.ofToken) = .ok ps' ∧ ps'.doctype = none ∧
+    ps'.root.map pskel = some (pskel sampleTree.toNode) :=
+  formatter_output_reparses_exact (mkCfg .pretty (.str (str "  ")) false) (by decide) sampleToks (by decide)
+    ⟨[], some sampleTree.toNode, none, 0, 0⟩ (by rfl) _ _ _ _ rfl (by decide)
+    (by simp only [FNode.Strict, StrictL]; decide) trivial
+
+example : ∃ out toks' ps' r', format (mkCfg .pretty .dflt false) rawToks = .ok out ∧
+    lexStrict out = some toks' ∧ Plain.feed (toks'.map Tok.ofToken) = .ok ps' ∧ ps'.root = some r' ∧
+    TailsRel (rawConts rawTree.toNode) (rawConts r') :=
+  script_style_content_reparses (mkCfg .pretty .dflt false) (by decide) rawToks (by decide)
+    ⟨[], some rawTree.toNode, some (str "DOCTYPE html"), 0, 0⟩ (by rfl) _ _ _ _ rfl (by decide)
+    (by simp only [FNode.Strict, StrictL]; decide) (by decide)
+
+example : rawConts rawTree.toNode = [str "if (a < b && c) { s = \"</div>\"; }"] := by decide
+
+/-- `pskel` is strictly finer than `cskel`: white space below pre/code (here inside a nested element) is erased by
+    `cskel` and kept by `pskel` -/
+def preA : Node := .elem .normal (str "pre") {} false [] [.elem .normal (str "b") {} false [] [.text false (str " y ")]]
+def preB : Node := .elem .normal (str "pre") {} false [] [.elem .normal (str "b") {} false [] [.text false (str "y")]]
+
+example : cskel preA = cskel preB ∧ pskel preA ≠ pskel preB := by
+  have e1 : eraseWS (str " y ") = str "y" := by decide
+  have e2 : eraseWS (str "y") = str "y" := by decide
+  have e3 : isRawText (str "pre") = false := by decide
+  have e4 : isRawText (str "b") = false := by decide
+  have e5 : isPre (str "pre") = true := by decide
+  constructor
+  · simp [preA, preB, cskel, skel, skelL, e1, e2]
+  · simp only [preA, preB, pskel, pskelAt, pskelAtL, e3, e4, e5, Bool.and_false, Bool.false_eq_true, if_false,
+      Bool.or_true, if_true, Bool.not_false, Bool.true_or]
+    simp [canon, canonL, pushText, str]
 /-- the output texts in question -/
 example : okIs (format (mkCfg .slim (.int 4) true) multiToks)
     "<!doctype html>\na \n<b>x\n</b>&amp;\n<br/>" = true := by decide
